@@ -6,7 +6,7 @@
    an accepted number reads back (after the decoder's sign extension) as round(value/resolution),
    never as "not available". (3) C02_float: round(fl(fl(n)*r)/r) = n on IEEE doubles — the
    decoded value of a number field re-encodes to exactly the original bits. *)
-From NV Require Import Base Bits Defn PyNum Fields Dispatch Template TemplateEnc Encode Spec SpecProofs EncodeProofs FloatRT.
+From NV Require Import Base Bits Defn PyNum Fields Dispatch Template TemplateEnc Encode Spec SpecProofs EncodeProofs FloatRT RoundTrip.
 
 Theorem C02_payload : forall code_enc LE g d,
   edef_ok code_enc g d = true -> encodable d = true -> layout_ok d = true ->
@@ -54,6 +54,24 @@ Theorem C02_float : forall bits len signed res mn mx val,
   encode_number val len signed res = Ok bits.
 Proof. exact number_field_roundtrip. Qed.
 Print Assumptions C02_float.
+
+(* END TO END, one database definition: if the translated encoder equals the encoder template of d (edef_ok, decided
+   per run for every definition), d is encodable with a disjoint layout, and its fields satisfy rt_def_ok (fixed
+   position; number/date/time/duration fields within the hypotheses of C02_float; pairwise different ids), then for
+   EVERY payload p: whatever message the decoder specification returns for p (C01: the generated decoder computes
+   exactly spec_decode), the encoder run on that message writes an integer that agrees with p on the bits of every
+   field that is not a FLOAT (binary32) field, and the encoder does return one when d has no FLOAT field.
+   The instance for the regenerated tables (262 of 263 encodable definitions) is tools/templates/OblC02rt.v. *)
+Theorem C02_roundtrip_def : forall code_enc LE L LB g d,
+  edef_ok code_enc g d = true -> encodable d = true -> layout_ok d = true -> rt_def_ok d = true ->
+  exists ce, find_fname (fname_of g d) code_enc = Some ce /\
+    forall p m, spec_decode L LB p d = Ok m ->
+      (forall x, run_esteps LE 0 (e_steps ce) (m_fields m) = Ok x ->
+         forall f off len, In f (d_fields d) -> f_bitoff f = Some off -> f_bitlen f = Some len ->
+           exact_field f = true -> decode_int x off len = field_bits p off len) /\
+      (no_float d = true -> exists x, run_esteps LE 0 (e_steps ce) (m_fields m) = Ok x).
+Proof. exact roundtrip_def. Qed.
+Print Assumptions C02_roundtrip_def.
 
 (* non-vacuity: a 16-bit signed number field at offset 8 next to an 8-bit field *)
 Example C02_example :
